@@ -495,6 +495,11 @@ func (g *gen) families18() {
 	for _, b := range small {
 		g.zipForgedFamily(b)
 	}
+	for bi, b := range small {
+		if bi < 3 {
+			g.zipMultiFamily(b)
+		}
+	}
 	// C + G: seeded search, until the budget is used
 	g.randomFamily(small, big)
 }
@@ -972,6 +977,32 @@ func (g *gen) zipForgedFamily(b base) {
 			arch := forgedZip(b.data, method, real, csz, crc)
 			g.run(&Case{Family: "zip-forged-header", Base: fmt.Sprintf("%s|%s compressed=%d", b.name, rd, csz), Reader: rd, ZipFail: -1, Data: arch,
 				Faults: []medium.Fault{{Kind: "zip-forged-size"}}}, true)
+		}
+	}
+}
+
+// zipMultiFamily: the model as one entry among directories, other files and oddly named entries; fault-free and
+// with single bit flips across the whole archive.
+func (g *gen) zipMultiFamily(b base) {
+	for _, layout := range []int{0x000, 0x001, 0x003, 0x0ff, 0x1ff, 0x2ff, 0x3ff, 0x210, 0x020, 0x145, 0x2aa} {
+		arch := MakeMultiZip(b.data, layout)
+		name := fmt.Sprintf("%s|zip-multi layout %#x", b.name, layout)
+		if g.mine() && !g.stop {
+			g.run(&Case{Family: "zip-multi-entry", Base: name, Reader: "zip-multi", ZipFail: -1, Data: arch}, true)
+		}
+		stride := 7
+		if g.thorough() {
+			stride = 1
+		}
+		for off := layout % stride; off < len(arch); off += stride {
+			if g.stop {
+				return
+			}
+			if !g.mine() {
+				continue
+			}
+			data, ch := medium.Apply(medium.Fault{Kind: medium.BitFlip, Off: off, Bit: off % 8}, arch, nil)
+			g.run(&Case{Family: "zip-multi-entry", Base: name, Faults: []medium.Fault{{Kind: medium.BitFlip, Off: off, Bit: off % 8}}, Reader: "zip-multi", ZipFail: -1, Data: data}, ch)
 		}
 	}
 }
